@@ -18,7 +18,7 @@ fn spec(t: Tier) -> Spec {
         id: "C14",
         level: "exploration",
         rule: format!(
-            "sandbox of sparse files whose sizes are {{0,1,2,3}} and k*u-1, k*u, k*u+1 for u in {{2,512,2^10,2^20,2^30}}, k<={k}{big}; files with 1..4 hard links; files owned by ids {{0,1,54321,2^31,2^32-2}}; files whose a/m timestamps are k*P-1s, k*P-1ns, k*P, k*P+1ns, k*P+1s old (P in {{60,86400}}, k<={kt}) under an injected clock. For every numeric primary (-size x 7 unit spellings, -links, -inum, -uid, -gid, -atime/-ctime/-mtime, -amin/-cmin/-mmin) the operand list is {{m-1,m,m+1 : m a measured value present in the sandbox}} + {{0, 2^31, 2^63-1, 2^63, 2^64-1}} (+ a zero-padded spelling), and for every (entry, N) the three forms N, +N, -N are evaluated by the real find in one comma-list run; each must equal (measured ==,>,< N) with measured = ceil(size/unit), st_nlink, st_ino, st_uid, st_gid, floor((now-timestamp)/P) computed from lstat() read back from the sandbox; trichotomy and monotonicity in N are also checked directly on the outputs. A second directory holds entries that are not regular files (directory, fifo, links to a file and to a directory, dangling links whose own length is 1, 511..513, 1024, 1025): -size (c, b, k), -links and -inum are judged on them with and without -L, against stat() resp. lstat(). evaluation = (entry, N, form); non-trivial = |measured-N| <= 1",
+            "sandbox of sparse files whose sizes are {{0,1,2,3}} and k*u-1, k*u, k*u+1 for u in {{2,512,2^10,2^20,2^30}}, k<={k}{big}; files with 1..4 hard links; files owned by ids {{0,1,54321,2^31,2^32-2}}; files whose a/m timestamps are k*P-1s, k*P-1ns, k*P, k*P+1ns, k*P+1s old (P in {{60,86400}}, k<={kt}) under an injected clock. For every numeric primary (-size x 7 unit spellings, -links, -inum, -uid, -gid, -atime/-ctime/-mtime, -amin/-cmin/-mmin) the operand list is {{m-1,m,m+1 : m a measured value present in the sandbox}} + {{0, 2^31, 2^63-1, 2^63, 2^64-1}} (+ zero-padded spellings, also to 25 and 40 digits), and for every (entry, N) the three forms N, +N, -N are evaluated by the real find in one comma-list run; each must equal (measured ==,>,< N) with measured = ceil(size/unit), st_nlink, st_ino, st_uid, st_gid, floor((now-timestamp)/P) computed from lstat() read back from the sandbox; trichotomy and monotonicity in N are also checked directly on the outputs. The six time tests also run under -daystart (trichotomy and monotonicity only). A second directory holds entries that are not regular files (directory, fifo, links to a file and to a directory, dangling links whose own length is 1, 511..513, 1024, 1025): -size (c, b, k), -links and -inum are judged on them with and without -L, against stat() resp. lstat(). evaluation = (entry, N, form); non-trivial = |measured-N| <= 1",
             k = t.pick(3, 4),
             big = " plus 2^31+-1, 2^32+-1, 5*2^30+1, 2^40+1, 2^62+1",
             kt = t.pick(2, 5)
@@ -66,6 +66,12 @@ fn prims() -> Vec<Prim> {
     v.push(Prim { name: "-gid", unit: "", dir: "o", kind: MKind::Gid, pre: "" });
     for (n, w, p) in [("-atime", 0u8, 86400u64), ("-ctime", 1, 86400), ("-mtime", 2, 86400), ("-amin", 0, 60), ("-cmin", 1, 60), ("-mmin", 2, 60)] {
         v.push(Prim { name: n, unit: "", dir: if p == 60 { "tm" } else { "td" }, kind: MKind::Age(w, p), pre: "" });
+    }
+    // the time tests once more under -daystart: no reference value is computed (the statement does not
+    // define the day's start), but exactly one of N, +N, -N holds for every file and every N, and +N / -N
+    // are monotone in N
+    for (n, w, p) in [("-atime", 0u8, 86400u64), ("-ctime", 1, 86400), ("-mtime", 2, 86400), ("-amin", 0, 60), ("-cmin", 1, 60), ("-mmin", 2, 60)] {
+        v.push(Prim { name: n, unit: "", dir: if p == 60 { "tm" } else { "td" }, kind: MKind::Age(w, p), pre: "-daystart" });
     }
     // entries that are not regular files (k/: directory, fifo, links to a file / a directory, dangling
     // links whose own length sits on the 512 boundary), with and without -L
@@ -215,6 +221,11 @@ fn operands(ms: &BTreeSet<u64>, tier: Tier) -> Vec<(u64, String)> {
     for v in vals.iter().take(tier.pick(3, 8)) {
         out.push((*v, format!("00{v}")));
     }
+    // ... and padded far beyond the 20 digits of 2^64-1
+    for v in vals.iter().take(3).chain(vals.iter().rev().take(1)) {
+        out.push((*v, format!("{v:025}")));
+        out.push((*v, format!("{v:040}")));
+    }
     out
 }
 
@@ -268,10 +279,12 @@ fn run_job(ctx: &mut Ctx, job: &Job) -> Vec<(String, String, Value)> {
     let tests = tests_for(job);
     let now = now_of();
     let ents = entries_of(job.prim.dir, job.prim.pre);
-    let pname = format!("{}{}{}", job.prim.name, if job.prim.name == "-size" { format!(" unit '{}'", job.prim.unit) } else { String::new() }, if job.prim.dir == "k" { format!(" on entries that are not regular files{}", if job.prim.pre.is_empty() { "" } else { " under -L" }) } else { String::new() });
+    let pname = format!("{}{}{}", job.prim.name, if job.prim.name == "-size" { format!(" unit '{}'", job.prim.unit) } else { String::new() }, if job.prim.dir == "k" { format!(" on entries that are not regular files{}", if job.prim.pre.is_empty() { "" } else { " under -L" }) } else if job.prim.pre == "-daystart" { " under -daystart".to_string() } else { String::new() });
     let case = |tst: &Test, path: &str| json!({"prop":"C14","dir": job.prim.dir, "test": tst, "path": path, "prim": job.prim.name, "unit": job.prim.unit, "pre": job.prim.pre});
-    let pre: Vec<&str> = if job.prim.pre.is_empty() { vec![] } else { vec![job.prim.pre] };
-    let sel = match lb::run_labelled(&pre, &[job.prim.dir], &["-mindepth", "1"], &tests, now) {
+    let daystart = job.prim.pre == "-daystart";
+    let pre: Vec<&str> = if job.prim.pre.is_empty() || daystart { vec![] } else { vec![job.prim.pre] };
+    let globals: &[&str] = if daystart { &["-mindepth", "1", "-daystart"] } else { &["-mindepth", "1"] };
+    let sel = match lb::run_labelled(&pre, &[job.prim.dir], globals, &tests, now) {
         Ok(s) => s,
         Err((why, out, argv)) => {
             let sig = if out.panicked() { format!("C14 panic in {pname}") } else { format!("C14 {pname}: output not attributable") };
@@ -294,10 +307,15 @@ fn run_job(ctx: &mut Ctx, job: &Job) -> Vec<(String, String, Value)> {
         return bad;
     }
     for (path, st) in &ents {
-        let Some(m) = measured(job.prim.kind, st, now) else { continue };
+        let m = match measured(job.prim.kind, st, now) {
+            Some(m) => m,
+            None if daystart => 0,
+            None => continue,
+        };
         for (oi, (n, sp)) in job.ops.iter().enumerate() {
             let got: Vec<bool> = (0..3).map(|f| sel.sel[oi * 3 + f].contains(path)).collect();
-            let want = [m == *n, m > *n, m < *n];
+            // (under -daystart no reference value: the three answers are only checked against each other)
+            let want = if daystart { [got[0], got[1], got[2]] } else { [m == *n, m > *n, m < *n] };
             ctx.rep.evaluations += 3;
             if m.abs_diff(*n) <= 1 {
                 ctx.rep.nontrivial += 3;
